@@ -66,9 +66,67 @@ def hostile_vhdx(p):
     return bytes(b)
 
 
+# Integer fields of each format's header as the FORMAT documents them (not as the inspectors read them): (offset, width,
+# endianness).  The 'fieldpair' family sets one field to an offset that lies inside the stream and another one to a huge
+# length - any field an inspector trusts as "where" and "how much" then announces a structure far larger than the bound.
+FIELDS = {
+    'qcow2': (0, '>', [(4, 4), (8, 8), (16, 4), (20, 4), (24, 8), (32, 4), (36, 4), (40, 8), (48, 8), (56, 4), (60, 4), (64, 8),
+                       (72, 8), (80, 8), (88, 8), (96, 4), (100, 4)]),
+    'qed': (0, '<', [(4, 4), (8, 4), (12, 4), (16, 8), (24, 8), (32, 8), (40, 8), (48, 8), (56, 4), (60, 4)]),
+    'vhd': (0, '>', [(8, 4), (12, 4), (16, 8), (24, 4), (36, 4), (40, 8), (48, 8), (56, 4), (60, 4), (64, 4)]),
+    'vdi': (0, '<', [(68, 4), (72, 4), (76, 4), (80, 4), (340, 4), (344, 4), (348, 4), (352, 4), (356, 4), (360, 4), (368, 8),
+                     (376, 4), (380, 4), (384, 4), (388, 4)]),
+    'luks': (0, '>', [(6, 2), (104, 4), (108, 4), (164, 4), (208, 4), (212, 4), (248, 4), (252, 4), (256, 4)]),
+    'gpt': (0, '<', [(454, 4), (458, 4), (470, 4), (474, 4), (512 + 8, 4), (512 + 12, 4), (512 + 24, 8), (512 + 32, 8), (512 + 40, 8),
+                     (512 + 48, 8), (512 + 72, 8), (512 + 80, 4), (512 + 84, 4)]),
+    'mbr': (0, '<', [(454, 4), (458, 4), (470, 4), (474, 4), (486, 4), (490, 4), (502, 4), (506, 4)]),
+    'iso': (32768, '<', [(80, 4), (120, 2), (124, 2), (128, 2), (132, 4), (140, 4), (144, 4), (156 + 2, 4), (156 + 10, 4)]),
+    'vmdk': (0, '<', [(4, 4), (8, 4), (12, 8), (20, 8), (28, 8), (36, 8), (44, 4), (48, 8), (56, 8), (64, 8)]),
+}
+FIELD_BASE = {'qcow2': {'total': 1024}, 'qed': {'total': 1024}, 'vhd': {'total': 1024}, 'vdi': {'total': 1024},
+              'luks': {'total': 4096, 'payload': 2}, 'gpt': {'total': 2048}, 'mbr': {'total': 2048}, 'iso': {'total': 36864},
+              'vmdk': {'desc_num': 4, 'min_total': 4096}}
+FLOOD_MARKS = ['\x01CD001', '\x00BEA01', '\x00BOOT2', '\x02CD001', '\x00NSR02', '\x00TEA01', '\xffCD001', 'conectix', 'KDMV', 'QFI\xfb',
+               'vhdxfile', 'head', 'regi', 'metadata', 'LUKS\xba\xbe\x00\x01', 'EFI PART', 'QED\x00', '<<< Oracle VM VirtualBox Disk Image >>>\n']
+
+
+def fieldpair(p):
+    """Valid small image of p['fmt'] with field p['a'] := p['va'] and (optionally) field p['b'] := p['vb'], followed by
+    p['tail'] bytes of non-zero filler."""
+    data, _t = ig.build({'gen': p['fmt'], 'params': FIELD_BASE[p['fmt']]})
+    base, endian, _fields = FIELDS[p['fmt']]
+    b = bytearray(data)
+    for key, vkey in (('a', 'va'), ('b', 'vb')):
+        if p.get(key) is None:
+            continue
+        off, width = p[key]
+        v = p[vkey] & ((1 << (8 * width)) - 1)
+        b[base + off:base + off + width] = v.to_bytes(width, 'big' if endian == '>' else 'little')
+    filler = b'tail filler 0123456789 abcdefghijklmnopqrstuvwxyz\n'
+    b += (filler * (p['tail'] // len(filler) + 1))[:p['tail']]
+    return bytes(b)
+
+
+def flood(p):
+    """A stream in which every `stride`-byte sector from `start` on begins (at in-sector offset `at`) with one format's
+    descriptor / structure magic: whatever an inspector does per recognised structure, it is asked to do it thousands of times."""
+    mark = p['mark'].encode('latin-1')
+    total, stride, at = p['total'], p['stride'], p['at']
+    sector = bytearray(b'x' * stride)
+    sector[at:at + len(mark)] = mark
+    sector = bytes(sector[:stride])
+    body = sector * (total // stride + 1)
+    head = b'\0' * p['start'] if p.get('zero_head') else body[:p['start']]
+    return (head + body)[:total]
+
+
 def build(case):
     g = case['gen']
     p = case['params']
+    if g == 'fieldpair':
+        return fieldpair(p)
+    if g == 'flood':
+        return flood(p)
     if g == 'hostile_vmdk':
         return hostile_vmdk(p)
     if g == 'hostile_vhdx':
@@ -202,6 +260,36 @@ def run(ctx):
     for g, p in valid:
         insps = [ig.INSPECTOR_OF[g]] + ([rng.choice(everyone)] if not ctx.quick else [])
         cases.append(({'gen': g, 'params': p}, sorted(set(insps)), [512, 34816, 256 * 1024, MI]))
+    # every ordered pair of documented header fields: (offset inside the stream, huge length); plus every field alone
+    offs = [512, 520, 4096, 65536, 600000]
+    hugev = [(1 << 64) - 1, (1 << 32) - 1, 1 << 31, 3 * MI, (1 << 63)]
+    for fmt in sorted(FIELDS):
+        base, _e, fields = FIELDS[fmt]
+        tail = MI + 300 * 1024
+        for fa in fields:
+            for v in offs + hugev:
+                if ctx.quick and rng.random() < 0.5:
+                    continue
+                cases.append(({'gen': 'fieldpair', 'params': {'fmt': fmt, 'a': fa, 'va': v, 'tail': tail}},
+                              [ig.INSPECTOR_OF[fmt]], [base + fa[0], v if v < tail else 512]))
+            for fb in fields:
+                if fa == fb:
+                    continue
+                combos = [(o, h) for o in offs for h in hugev]
+                for o, h in (combos if not ctx.quick else rng.sample(combos, 2)):
+                    cases.append(({'gen': 'fieldpair', 'params': {'fmt': fmt, 'a': fa, 'va': o, 'b': fb, 'vb': h, 'tail': tail}},
+                                  [ig.INSPECTOR_OF[fmt]], [base + fa[0], o, o + 512 * 1024]))
+    for mark in FLOOD_MARKS:
+        for stride in (512, 2048, 4096, 65536):
+            for at in (0, 1):
+                if ctx.quick and stride in (4096, 65536) and rng.random() < 0.5:
+                    continue
+                for start, zero_head in ((0, False), (32768, True), (65536, True)):
+                    if ctx.quick and start == 65536:
+                        continue
+                    cases.append(({'gen': 'flood', 'params': {'mark': mark, 'stride': stride, 'at': at, 'start': start,
+                                                              'zero_head': zero_head, 'total': ctx.pick(2, 4) * MI + 77}},
+                                  everyone, [start, start + stride]))
     for spec, insps, bounds in cases:
         idx += 1
         seed_for_case = rng.getrandbits(48)
@@ -209,7 +297,16 @@ def run(ctx):
             continue
         crng = ctx.rng('case-%d' % seed_for_case)
         data = build(spec)
-        case = dict(spec, inspectors=insps, schedules=schedules_for(crng, len(data), bounds, ctx.quick))
+        if spec['gen'] in ('fieldpair', 'flood'):
+            sch = [['giant', []], ['fixed-1MiB', sl.fixed(len(data), MI)], ['fixed-64KiB', sl.fixed(len(data), 65536)]]
+            if spec['gen'] == 'flood' or crng.random() < 0.15:
+                sch.append(['fixed-512', sl.fixed(len(data), 512)])
+            near = [b for b in bounds if 0 < b < len(data)]
+            if near:
+                sch.append(['single-cut', [crng.choice(near)]])
+        else:
+            sch = schedules_for(crng, len(data), bounds, ctx.quick)
+        case = dict(spec, inspectors=insps, schedules=sch)
         ctx.sample(spec['gen'], {'gen': spec['gen'], 'params': spec['params'], 'inspectors': insps,
                                  'schedules': [s[0] for s in case['schedules']], 'stream_len': len(data)})
         eval_case(ctx, case)
